@@ -114,6 +114,11 @@ func (p *Program) termOf1(v ssa.Value, busy map[ssa.Value]bool, depth int) *Term
 	rec := func(x ssa.Value) *Term { return p.termOf(x, busy, depth+1) }
 	switch v := v.(type) {
 	case *ssa.Parameter:
+		// the receiver of an unexported method that is only ever used as a method value bound at one
+		// site ("closure turned into a small struct with a method") is whatever was bound there
+		if b := p.boundOnlyReceiver(v); b != nil && !busy[b] && depth < 12 {
+			return rec(b)
+		}
 		t := mk("param", v.Name(), v)
 		t.Idx = paramIndex(v)
 		t.Fn = v.Parent()
@@ -135,8 +140,18 @@ func (p *Program) termOf1(v ssa.Value, busy map[ssa.Value]bool, depth int) *Term
 	case *ssa.Builtin:
 		return mk("builtinref", v.Name(), v)
 	case *ssa.MakeClosure:
-		t := mk("closure", funcName(v.Fn.(*ssa.Function)), v)
-		t.Fn = v.Fn.(*ssa.Function)
+		cf := v.Fn.(*ssa.Function)
+		if m := boundTarget(cf); m != nil {
+			// a method value x.m: described as the method itself (its receiver is the bound value)
+			t := mk("closure", funcName(m), v)
+			t.Fn = m
+			if depth < 6 && len(v.Bindings) == 1 && !busy[v.Bindings[0]] {
+				t.Args = append(t.Args, mk("captured", "", v.Bindings[0], rec(v.Bindings[0])))
+			}
+			return t
+		}
+		t := mk("closure", funcName(cf), v)
+		t.Fn = cf
 		// what the closure captures (a captured local is described by what was stored into it), so
 		// that provenance questions ("is it seeded with req.X?") see through the capture
 		if depth < 6 {
@@ -412,6 +427,13 @@ func (p *Program) cellTerm(a *ssa.Alloc, v ssa.Value, busy map[ssa.Value]bool, d
 // fieldTerm builds base.name, looking through fresh allocations: a field of a
 // composite literal / local struct is whatever was stored into that field.
 func fieldTerm(base *Term, name string, v ssa.Value, p *Program, busy map[ssa.Value]bool, depth int) *Term {
+	if base.Op == "struct" {
+		for _, a := range base.Args {
+			if a.Op == "fieldval" && a.Name == name && len(a.Args) == 1 {
+				return a.Args[0]
+			}
+		}
+	}
 	if base.Op == "alloc" {
 		if al, ok := base.V.(*ssa.Alloc); ok {
 			_, byField := p.storesTo(al)
@@ -816,7 +838,7 @@ func (t *Term) IsField(name string, base func(*Term) bool) bool {
 
 // IsCallTo: static call (or resolved dyncall) to fn.
 func (t *Term) IsCallTo(fn *ssa.Function) bool {
-	return t != nil && (t.Op == "call" || t.Op == "dyncall") && t.Fn == fn && fn != nil
+	return t != nil && (t.Op == "call" || t.Op == "dyncall") && fn != nil && (t.Fn == fn || pureForwardTarget(t.Fn) == fn)
 }
 
 // DerivesFrom: some leaf/subterm of t satisfies pred (t "depends on" it).
@@ -979,4 +1001,89 @@ func (p *Program) ContentTerm(v ssa.Value) *Term {
 		}
 	}
 	return p.TermOf(v)
+}
+
+// boundTarget: for the synthetic wrapper go/ssa creates for a method value (x.m), the method m.
+func boundTarget(f *ssa.Function) *ssa.Function {
+	if f == nil || !strings.HasPrefix(f.Synthetic, "bound method wrapper") {
+		return nil
+	}
+	var m *ssa.Function
+	eachInstr(f, func(in ssa.Instruction) {
+		if cc := callCommon(in); cc != nil && cc.StaticCallee() != nil && m == nil {
+			m = cc.StaticCallee()
+		}
+	})
+	return m
+}
+
+// boundOnlyReceiver: when par is the receiver of an unexported method of an unexported module type
+// that is used only as a method value bound at a single site (and called by nobody else but
+// itself), the value bound there; nil otherwise.
+func (p *Program) boundOnlyReceiver(par *ssa.Parameter) ssa.Value {
+	fn := par.Parent()
+	if fn == nil || fn.Signature.Recv() == nil || len(fn.Params) == 0 || fn.Params[0] != par {
+		return nil
+	}
+	if p.boundRecv == nil {
+		p.boundRecv = map[*ssa.Function]ssa.Value{}
+		sites := map[*ssa.Function][]ssa.Value{}
+		other := map[*ssa.Function]bool{}
+		for f := range p.AllFuncs {
+			if f.Pkg == nil && f.Parent() == nil && boundTarget(f) == nil {
+				continue
+			}
+			if boundTarget(f) != nil {
+				continue // the wrapper's own call of the method
+			}
+			f := f
+			eachInstr(f, func(in ssa.Instruction) {
+				if mc, ok := in.(*ssa.MakeClosure); ok {
+					if m := boundTarget(mc.Fn.(*ssa.Function)); m != nil && len(mc.Bindings) == 1 {
+						sites[m] = append(sites[m], mc.Bindings[0])
+					}
+				}
+				if cc := callCommon(in); cc != nil {
+					if g := cc.StaticCallee(); g != nil && g.Signature.Recv() != nil && len(cc.Args) > 0 {
+						if g != f && !(f.Parent() != nil && outermost(f) == g) {
+							// a direct call from outside: one more site — usable only when the receiver is a
+							// struct built on the spot in the caller (the "closure turned into struct + method" shape)
+							if al, isAl := cc.Args[0].(*ssa.Alloc); isAl && al.Parent() == f {
+								sites[g] = append(sites[g], cc.Args[0])
+							} else {
+								other[g] = true
+							}
+						} else if g == f && cc.Args[0] != ssa.Value(f.Params[0]) {
+							other[g] = true // recursion on another receiver
+						} else if g != f {
+							other[g] = true // called from its own closures: keep it simple
+						}
+					}
+				}
+				// the method referenced as a plain function value (method expression)
+				for _, op := range in.Operands(nil) {
+					if g, ok := (*op).(*ssa.Function); ok && g.Signature.Recv() != nil {
+						if cc := callCommon(in); cc == nil || cc.Value != *op {
+							other[g] = true
+						}
+					}
+				}
+			})
+		}
+		for m, bs := range sites {
+			if len(bs) != 1 || other[m] || m.Pkg == nil || !strings.HasPrefix(m.Pkg.Pkg.Path(), modPath) {
+				continue
+			}
+			if m.Object() == nil || m.Object().Exported() {
+				continue
+			}
+			n, ok := deref(m.Signature.Recv().Type()).(*types.Named)
+			if !ok || n.Obj().Exported() {
+				continue
+			}
+			// the type must not reach an interface holding the method (dynamic callers)
+			p.boundRecv[m] = bs[0]
+		}
+	}
+	return p.boundRecv[fn]
 }
